@@ -759,7 +759,7 @@ func clStr(ad *classad.ClassAd, n string) string {
 func runClaim(c *Ctx) error {
 	slog.SetDefault(slog.New(slog.NewTextHandler(io.Discard, nil)))
 	prop := "C16"
-	c.Res.Rule = "mint options drawn from the grammar (sinfuls plain / IPv6-bracketed / with addrs, alias, sock, CCBID parameters, with and without embedded '#', plus boundary shapes of the id grammar; encryption/integrity nil/on/off; default, single and multi cipher lists incl. refused ones; versions absent/short/long; 0..6 commands; lifetimes none/long/1ns/negative/century; peer address, tag, identities), the REAL MintClaimSession on one cache and ImportClaimSession / ImportFileTransferSession on another with drawn import options; both entries rendered field by field and compared with the model; session_info text compared with an independent spec rendering and re-exported after import; real client/server handshakes naming the session explicitly in both directions with one message each way; every case repeats import+handshakes with a single-character corruption of the secret; plus a malformed stream (mutated claim ids, random session_info texts, random policies) through parse/attrs/importinfo/export/import; distinct by op sequence without times and random secrets; non-trivial = minted and imported successfully and at least one handshake ran"
+	c.Res.Rule = "mint options drawn from the grammar (sinfuls plain / IPv6-bracketed / with addrs, alias, sock, CCBID parameters, with and without embedded '#', plus boundary shapes of the id grammar; encryption/integrity nil/on/off; default, single and multi cipher lists incl. refused ones; versions absent/short/long; 0..6 commands; lifetimes none/long/1ns/negative/century; peer address, tag, identities), the REAL MintClaimSession on one cache and ImportClaimSession / ImportFileTransferSession on another with drawn import options; both entries rendered field by field and compared with the model; session_info text compared with an independent spec rendering and re-exported after import; real client/server handshakes naming the session explicitly in both directions with one message each way; every case repeats import+handshakes with a single-character corruption of the secret; a third of the cases then re-mint the same slot (new secret, longer lifetime) and import the new id into the cache that already holds the first import, with handshakes both ways; plus a malformed stream (mutated claim ids, random session_info texts, random policies) through parse/attrs/importinfo/export/import; distinct by op sequence without times and random secrets; non-trivial = minted and imported successfully and at least one handshake ran"
 	var cases []Case
 	desc := ""
 	viol := func(w *clWorld, key, what, exp, obs string) {
@@ -1015,6 +1015,7 @@ func clCheckMinted(c *Ctx, w *clWorld, m clMint, r clMinted, viol func(w *clWorl
 	bad := []byte(claim)
 	bad[len(claim)-64+pos] = repl
 	*keyParts = append(*keyParts, fmt.Sprintf("corrupt %d %c", pos, repl))
+	defer clRemint(c, w, m, io, wantSid, expired, viol)
 	if string(bad) == claim {
 		return true
 	}
@@ -1036,6 +1037,49 @@ func clCheckMinted(c *Ctx, w *clWorld, m clMint, r clMinted, viol func(w *clWorl
 		c.Count("corrupt:import-rejected")
 	}
 	return true
+}
+
+// clRemint: the same slot (sinful, birthdate, sequence) is minted again — new secret, other
+// lifetime — and the new claim id is imported into the cache that already holds the first import.
+// Minter and importer must again share ONE session: the importer's entry is the new one.
+func clRemint(c *Ctx, w *clWorld, m clMint, io security.ClaimSessionOptions, wantSid string, wasExpired bool, viol func(w *clWorld, key, what, exp, obs string)) {
+	if c.Rng.Intn(3) != 0 {
+		return
+	}
+	c.Count("op:remint-reimport")
+	o2 := m.o
+	if o2.Lifetime > 0 {
+		o2.Lifetime += 2 * time.Hour
+	} else if c.Rng.Intn(2) == 0 {
+		o2.Lifetime = 3 * time.Hour
+	}
+	r2 := w.mint("M", o2)
+	if r2.err != nil || len(r2.secret) != 64 {
+		return
+	}
+	claim2 := r2.mc.ClaimID()
+	isid, err := w.importOp("import", "I", claim2, io, false)
+	if err != nil {
+		viol(w, "C16:reimport-rejected", "ImportClaimSession rejects the re-minted claim id of a slot it already imported", "session "+wantSid, err.Error())
+		return
+	}
+	em, ei := clEntry(w.cache("M"), r2.mc.SessionID()), clEntry(w.cache("I"), isid)
+	if em == nil || ei == nil || em.KeyInfo() == nil || ei.KeyInfo() == nil {
+		viol(w, "C16:reimport-entry-missing", "no keyed entry under the session id after re-mint + re-import", "entries on both ends", "missing")
+		return
+	}
+	if !bytes.Equal(em.KeyInfo().Data, ei.KeyInfo().Data) || !bytes.Equal(ei.KeyInfo().Data, clHKDF(r2.secret)) {
+		viol(w, "C16:reimport-key-differs", "after re-mint + re-import the importer does not hold the key of the claim id it imported last", "HKDF(new secret) on both ends", "importer key differs")
+	}
+	if (o2.Lifetime > 0 || io.Duration <= 0) && !em.Expiration().Equal(ei.Expiration()) {
+		viol(w, "C16:reimport-expiry-differs", "after re-mint + re-import minter and importer expire the session at different times", em.Expiration().Format(time.RFC3339Nano), ei.Expiration().Format(time.RFC3339Nano))
+	}
+	for _, dir := range [][2]string{{"I", "M"}, {"M", "I"}} {
+		rs := w.resume(dir[0], dir[1], r2.mc.SessionID())
+		if rs.reply != "ok resumed deliver=1" {
+			viol(w, "C16:reimport-resume-fails:"+dir[0]+"->"+dir[1], "after re-mint + re-import the shared session does not resume / carry data", "ok resumed deliver=1", rs.reply+" "+rs.detail)
+		}
+	}
 }
 
 func clInts0(v []int) string {
